@@ -801,8 +801,122 @@ func (g *Gen) resumeProgram(n int) {
 	g.emit(Line{Op: "keys", Pos: []string{"c0"}})
 }
 
+// lifeProgram: feeds started through several handles; terminators, drops, handle closes, bucket deletion in random order.
+func (g *Gen) lifeProgram(n int) {
+	handles := map[string]bool{"h0": true}
+	collOpen := map[string]map[string]bool{"h0": {"c0": true, "c1": true, "c2": true}}
+	type fd struct {
+		id, coll string
+		dump     bool
+	}
+	var feeds []fd
+	storeOpen := true
+	nf := 0
+	openHandles := func() []string {
+		var hs []string
+		for _, h := range []string{"h0", "h1", "h2"} {
+			if handles[h] {
+				hs = append(hs, h)
+			}
+		}
+		return hs
+	}
+	for i := 0; i < n && storeOpen; i++ {
+		hs := openHandles()
+		if len(hs) == 0 {
+			break
+		}
+		h := pick(g.r, hs)
+		switch g.r.weighted([]int{12, 14, 22, 10, 10, 8, 3, 21}) {
+		case 0:
+			for _, nh := range []string{"h1", "h2"} {
+				if _, ever := handles[nh]; !ever {
+					g.emit(Line{Op: "hopen", Pos: []string{nh}})
+					handles[nh] = true
+					collOpen[nh] = map[string]bool{}
+					break
+				}
+			}
+		case 1:
+			c := pick(g.r, []string{"c0", "c1", "c2"})
+			g.emit(Line{Op: "mkcoll", Pos: []string{c}, Args: [][2]string{{"via", h}}})
+			collOpen[h][c] = true
+		case 2:
+			var cs []string
+			for c, ok := range collOpen[h] {
+				if ok {
+					cs = append(cs, c)
+				}
+			}
+			if len(cs) == 0 {
+				continue
+			}
+			sortStrings(cs)
+			c := pick(g.r, cs)
+			id := fmt.Sprintf("f%d", nf)
+			nf++
+			l := Line{Op: "feed", Pos: []string{id, c}, Args: [][2]string{{"via", h}, {"bf", pick(g.r, []string{"none", "0"})}}}
+			dump := g.r.chance(20)
+			if dump {
+				l.add("dump", "1")
+				l.Args[1][1] = "0"
+			}
+			g.emit(l)
+			feeds = append(feeds, fd{id, c, dump})
+		case 3:
+			if len(feeds) > 0 {
+				f := pick(g.r, feeds)
+				g.emit(Line{Op: "stopfeed", Pos: []string{f.id}})
+			}
+		case 4:
+			c := pick(g.r, []string{"c1", "c2"})
+			g.emit(Line{Op: "dropcoll", Pos: []string{c}, Args: [][2]string{{"via", h}}})
+			for _, m := range collOpen {
+				m[c] = false
+			}
+		case 5:
+			g.emit(Line{Op: "hclose", Pos: []string{h}})
+			handles[h] = false
+			if g.w.kind == "disk" && len(openHandles()) == 0 {
+				storeOpen = false
+			}
+		case 6:
+			g.emit(Line{Op: "cadh", Pos: []string{h}})
+			storeOpen = false
+		case 7:
+			var cs []string
+			for c, ok := range collOpen[h] {
+				if ok {
+					cs = append(cs, c)
+				}
+			}
+			if len(cs) == 0 {
+				continue
+			}
+			sortStrings(cs)
+			g.emit(Line{Op: "probe", Pos: []string{pick(g.r, cs)}, Args: [][2]string{{"via", h}}})
+			g.stats["op:probe"]++
+		}
+		res := g.emit(Line{Op: "lifestate"})
+		g.stats["cell:life/"+strings.Join(strings.Fields(res)[1:], ",")]++
+	}
+	g.emit(Line{Op: "lifestate"})
+}
+
+func sortStrings(a []string) {
+	for i := 1; i < len(a); i++ {
+		for j := i; j > 0 && a[j] < a[j-1]; j-- {
+			a[j], a[j-1] = a[j-1], a[j]
+		}
+	}
+}
+
 // program generates one program of n operations under the generator's profile.
 func (g *Gen) program(n int) {
+	if g.profile == "life" {
+		g.lifeProgram(n)
+		return
+	}
 	if g.profile == "resume" {
 		g.phys = 1 << 20
 		g.now = 1700000000
